@@ -55,7 +55,7 @@ type c12Params struct {
 func (c12) ID() string    { return "C12" }
 func (c12) Level() string { return "exploration" }
 func (c12) Rule() string {
-	return "seeded API histories on the stream stack, families: (cut) a writer sends N records and then closes / half-closes / does nothing while the transport of that direction ends before or inside a drawn record at a drawn byte offset (thorough: every offset of small records), the reader keeps calling Read after the end; (alert) after a clean handshake a scripted peer sends protected alerts of every level and a range of descriptions, single or in runs; (early-app) a scripted peer sends application data - with or without payload - after k handshake messages, up to between its ChangeCipherSpec and Finished; (cancel) HandshakeContext is cancelled while the peer stalls after k handshake messages - in a third of the cases another task had started the handshake through Read and is blocked in it; (hs-timeout) the connection deadline expires during the handshake because the peer is slow, is cleared, and the peer's messages arrive late; (close-inflight) Close while another task's Write is blocked in a full transport and the peer's data waits in the buffer; (api) sequences of Close / CloseWrite / Write / Read / Handshake / renewing the deadlines on one end, incl. before the handshake. Oracle: a small state machine per end - delivered bytes are a prefix of what the peer wrote made of whole records; io.EOF only after everything written was delivered and only on close_notify or a cut exactly on a record boundary; a cut inside a record gives io.ErrUnexpectedEOF; every later Read repeats the failure and delivers nothing; after Close every call fails and a second Close reports net.ErrClosed; Write after CloseWrite fails; a failed handshake stays failed; early application data is never delivered; a cancelled handshake returns the context's error. distinct = distinct parameter vectors; non-trivial = the event under test happened"
+	return "seeded API histories on the stream stack, families: (cut) a writer sends N records and then closes / half-closes / does nothing while the transport of that direction ends before or inside a drawn record at a drawn byte offset (thorough: every offset of small records), the reader keeps calling Read after the end; (alert) after a clean handshake a scripted peer sends protected alerts of every level and a range of descriptions, single or in runs; (early-app) a scripted peer sends application data - with or without payload - after k handshake messages, up to between its ChangeCipherSpec and Finished; (cancel) HandshakeContext is cancelled while the peer stalls after k handshake messages - in a third of the cases another task had started the handshake through Read and is blocked in it; (hs-timeout) the connection deadline expires during the handshake because the peer is slow, is cleared, and the peer's messages arrive late; (close-inflight) Close while another task's Write is blocked in a full transport and the peer's data waits in the buffer; (api) sequences of Close / CloseWrite / Write / Read / Handshake / renewing the deadlines on one end, incl. before the handshake. Oracle: a small state machine per end - delivered bytes are a prefix of what the peer wrote made of whole records; io.EOF only after everything written was delivered and only on close_notify or a cut exactly on a record boundary; a cut inside a record gives io.ErrUnexpectedEOF; every later Read repeats the failure and delivers nothing; after Close every call fails and a second Close reports net.ErrClosed; Write after CloseWrite fails; a failed handshake stays failed; early application data is never delivered; a cancelled handshake returns the context's error. Also: cancel with a context that has already ended when HandshakeContext is called (server role; the peer then runs the whole handshake and sends data: nothing may complete); api histories include Writes without payload (fail wherever a Write fails). distinct = distinct parameter vectors; non-trivial = the event under test happened"
 }
 func (c12) Components() (real, stub []string) {
 	return []string{"tlcp.Conn (instrumented): Read/Write/Close/CloseWrite/HandshakeContext, alert handling, error latching", "the handshake-context interrupter goroutine (real, unmanaged; its transport Close is awaited as an external event)"},
